@@ -68,13 +68,15 @@ Inductive pyval :=
 
 (* isinstance lattice *)
 Definition is_int (v : pyval) : bool := match v with VInt _ | VBool _ => true | _ => false end.
-Definition is_float (v : pyval) : bool := match v with VFloat _ | VQty _ _ _ => true | _ => false end.
+(* Quantity and SI are subclasses of float *)
+Definition is_float (v : pyval) : bool :=
+  match v with VFloat _ | VQty _ _ _ => true | VOther t => N.eqb t 2 | _ => false end.
 Definition is_bool (v : pyval) : bool := match v with VBool _ => true | _ => false end.
 Definition is_str (v : pyval) : bool := match v with VStr _ => true | _ => false end.
 
 (* the number a value denotes in a comparison with a plain int/float bound;
-   None for a Quantity (its comparison operators raise TypeError against a
-   non-Quantity) and for non-numbers *)
+   None for a Quantity or SI (their comparison operators raise TypeError
+   against a plain number) and for non-numbers *)
 Definition val_x (v : pyval) : option xr :=
   match v with
   | VInt z => Some (XFin (inject_Z z))
@@ -138,6 +140,9 @@ Inductive constr :=
 | CSel (opts : list string)
 | CUnit (cls : N) (opts : list string).  (* InputParameterUnit: a selection list of the class's units *)
 
+(* h_id is the identity of the parameter object: the model stamps every object
+   it creates with the number of the operation that created it (1, 2, ...;
+   0 is the root map), so identities grow with creation = insertion order *)
 Record hdr := mkHdr { h_id : nat; h_key : string; h_prio : Q }.
 
 Inductive param :=
@@ -254,6 +259,28 @@ Fixpoint remove_at (segs : list string) (p : param) : res (param * param) :=
       end
   end.
 
+(* ------------------------------------------------------------------ what "a valid value" means *)
+(* The declared type / bounds / option list / quantity type of each class, as
+   documented; written independently of set_value ([check_set] below), to which
+   it is related by a theorem. *)
+Definition in_bounds (mn mx : num) (x : option xr) : bool :=
+  match x with Some x => between mn mx x | None => false end.
+
+Definition valid_for (c : constr) (v : pyval) : bool :=
+  match c with
+  | CInt mn mx => is_int v && in_bounds mn mx (val_x v)
+  | CFloat mn mx => (is_int v || is_float v) && in_bounds mn mx (val_x v)
+  | CStr => is_str v
+  | CBool => is_bool v
+  | CQty cls mn mx =>
+      match v with
+      | VQty cls' si _ => N.eqb cls' cls && between mn mx (flt_x si)
+      | _ => false
+      end
+  | CSel opts | CUnit _ opts =>
+      match v with VStr s => mem_str s opts | _ => false end
+  end.
+
 (* ------------------------------------------------------------------ behaviour switches *)
 Record quirks := mkQuirks {
   q_str_ignores_ro : bool;      (* InputParameterStr.set_value has no read-only check *)
@@ -327,7 +354,6 @@ Inductive kspec :=
 | SUnit (cls : N) (units : list string).   (* units = list(quantity._units.keys()), supplied by the harness *)
 
 Record pspec := mkSpec {
-  s_id : nat;            (* the identity the harness gives the object under construction *)
   s_key : string;
   s_prio : Q;
   s_ro : bool;
@@ -349,8 +375,8 @@ Definition constr_of (k : kspec) (d : pyval) : constr :=
   | SUnit cls units => CUnit cls units
   end.
 
-Definition node_of (s : pspec) : param :=
-  let h := mkHdr (s_id s) (s_key s) (s_prio s) in
+Definition node_of (id : nat) (s : pspec) : param :=
+  let h := mkHdr id (s_key s) (s_prio s) in
   match s_kind s with
   | SMap => Map h []
   | k => Leaf h (s_ro s) (constr_of k (s_default s)) (s_default s) (s_default s)
@@ -447,7 +473,9 @@ Inductive out :=
 Definition psegs (pp : option string) : list string :=
   match pp with None => [] | Some s => segments s end.
 
-Definition step (q : quirks) (root : param) (o : op) : param * out :=
+(* one operation on the tree; [id] is the identity given to an object the
+   operation creates *)
+Definition step_root (q : quirks) (id : nat) (root : param) (o : op) : param * out :=
   match o with
   | OSet path v =>
       match modify (segments path) (set_value q v) root with
@@ -488,7 +516,7 @@ Definition step (q : quirks) (root : param) (o : op) : param * out :=
           match ctor_checks q s None with
           | Some e => (root, ORaise e)
           | None =>
-              match modify (psegs pp) (map_add (node_of s)) root with
+              match modify (psegs pp) (map_add (node_of id s)) root with
               | Val root' => (root', ONone)
               | Raise e => (root, ORaise e)
               end
@@ -503,7 +531,7 @@ Definition step (q : quirks) (root : param) (o : op) : param * out :=
             match first_exn (unit_checks s) (base_checks s (Some par)) with
             | Some e => (root, ORaise e)
             | None =>
-                match modify (psegs pp) (map_add (node_of s)) root with
+                match modify (psegs pp) (map_add (node_of id s)) root with
                 | Raise e => (root, ORaise e)
                 | Val root' =>
                     match default_checks s with
@@ -516,7 +544,7 @@ Definition step (q : quirks) (root : param) (o : op) : param * out :=
             match ctor_checks q s (Some par) with
             | Some e => (root, ORaise e)
             | None =>
-                match modify (psegs pp) (map_add (node_of s)) root with
+                match modify (psegs pp) (map_add (node_of id s)) root with
                 | Val root' => (root', ONone)
                 | Raise e => (root, ORaise e)
                 end
@@ -524,29 +552,44 @@ Definition step (q : quirks) (root : param) (o : op) : param * out :=
       end
   end.
 
-Fixpoint run (q : quirks) (root : param) (ops : list op) : param :=
+(* the whole state: the tree of a DSOLModel and the number of the next operation *)
+Record state := mkState { st_root : param; st_next : nat }.
+
+Definition step (q : quirks) (st : state) (o : op) : state * out :=
+  let '(root', r) := step_root q (st_next st) (st_root st) o in
+  (mkState root' (S (st_next st)), r).
+
+Fixpoint run (q : quirks) (st : state) (ops : list op) : state :=
   match ops with
-  | [] => root
-  | o :: r => run q (fst (step q root o)) r
+  | [] => st
+  | o :: r => run q (fst (step q st o)) r
   end.
 
 (* DSOLModel.__init__ : InputParameterMap("root", "parameters", 1) *)
 Definition root_key : string := "root"%string.
-Definition init : param := Map (mkHdr 0 root_key 1) [].
+Definition init : state := mkState (Map (mkHdr 0 root_key 1) []) 1.
 
 (* ------------------------------------------------------------------ observation *)
-(* (extended key, identity, value (None for a map), default) of every
-   parameter, pre-order = iteration order of the nested dicts *)
+(* every parameter below (and including) p with its extended key, pre-order =
+   iteration order of the nested dicts.  extended_key() walks the parents and
+   joins their keys with '.', which is the prefix accumulated here. *)
+Fixpoint ext_keys (prefix : string) (p : param) : list (string * param) :=
+  let ek := String.append prefix (pkey p) in
+  (ek, p) :: match p with
+             | Leaf _ _ _ _ _ => []
+             | Map _ ch => flat_map (ext_keys (String.append ek (String dot EmptyString))) ch
+             end.
+
+(* (extended key, identity, value (None for a map), default) *)
 Definition dump_entry := (string * nat * option pyval * pyval)%type.
 
-Fixpoint dump (prefix : string) (p : param) : list dump_entry :=
-  let ek := String.append prefix (pkey p) in
-  match p with
-  | Leaf h _ _ d v => [(ek, h_id h, Some v, d)]
-  | Map h ch => (ek, h_id h, None, VNone) :: flat_map (dump (String.append ek (String dot EmptyString))) ch
+Definition entry_of (e : string * param) : dump_entry :=
+  match snd e with
+  | Leaf h _ _ d v => (fst e, h_id h, Some v, d)
+  | Map h _ => (fst e, h_id h, None, VNone)
   end.
 
-Definition dump_root (root : param) : list dump_entry := dump EmptyString root.
+Definition dump_root (root : param) : list dump_entry := map entry_of (ext_keys EmptyString root).
 
 (* ------------------------------------------------------------------ equality of observables *)
 Definition q_eqb (a b : Q) : bool := Z.eqb (Qnum a) (Qnum b) && Pos.eqb (Qden a) (Qden b).
@@ -620,23 +663,34 @@ Fixpoint dump_eqb (a b : list dump_entry) : bool :=
 
 (* One correspondence case: operations with the implementation's result and,
    when the implementation's observable state changed, its new dump (None =
-   the implementation's dump is the same as before the operation). *)
+   the implementation's dump is the same as before the operation).
+   [trace_bad] is the position of the first operation at which the model and
+   the implementation differ (None = they agree on the whole trace). *)
 Definition obs := (op * out * option (list dump_entry))%type.
 
-Fixpoint trace_ok (q : quirks) (root : param) (prev : list dump_entry) (l : list obs) : bool :=
+Fixpoint trace_bad (q : quirks) (i : nat) (st : state) (prev : list dump_entry) (l : list obs) : option nat :=
   match l with
-  | [] => true
+  | [] => None
   | (o, expected, d) :: r =>
-      let '(root', got) := step q root o in
-      let now := dump_root root' in
+      let '(st', got) := step q st o in
+      let now := dump_root (st_root st') in
       let want := match d with Some x => x | None => prev end in
-      out_eqb got expected && dump_eqb now want && trace_ok q root' want r
+      if out_eqb got expected && dump_eqb now want then trace_bad q (S i) st' want r else Some i
   end.
 
-Definition case_ok (q : quirks) (l : list obs) : bool := trace_ok q init (dump_root init) l.
+Definition case_bad (q : quirks) (l : list obs) : option nat :=
+  trace_bad q 0 init (dump_root (st_root init)) l.
+
+Definition case_ok (q : quirks) (l : list obs) : bool :=
+  match case_bad q l with None => true | Some _ => false end.
 
 Fixpoint mismatches_from (i : nat) (check : list obs -> bool) (cases : list (list obs)) : list nat :=
   match cases with
   | [] => []
   | c :: r => if check c then mismatches_from (S i) check r else i :: mismatches_from (S i) check r
   end.
+
+(* for each listed case the position of its first disagreeing operation
+   (length of the case when there is none) *)
+Definition first_bad_ops (q : quirks) (cases : list (list obs)) : list nat :=
+  map (fun c => match case_bad q c with Some i => i | None => List.length c end) cases.
